@@ -39,7 +39,7 @@ var utf8Runes = []rune("aé日😀xßz本𝄞ñ語€qあ🎉wü한ж")
 
 func runesOf(c Case) []rune {
 	src := asciiRunes
-	if c.Kind == "utf8" {
+	if c.Kind == "utf8" || c.Kind == "str-desc" {
 		src = utf8Runes
 	}
 	out := make([]rune, c.N)
@@ -49,7 +49,22 @@ func runesOf(c Case) []rune {
 	return out
 }
 
+var (
+	arrChildProto = object.NewPanObj(&map[object.SymHash]object.Pair{}, object.BuiltInArrObj)
+	strChildProto = object.NewPanObj(&map[object.SymHash]object.Pair{}, object.BuiltInStrObj)
+)
+
 func recvObj(c Case) object.PanObject {
+	switch c.Kind {
+	case "arr-desc": // a typed descendant of Arr (what Arr.bear.new([...]) makes)
+		elems := make([]object.PanObject, c.N)
+		for i := range elems {
+			elems[i] = object.NewPanInt(int64(100 + i))
+		}
+		return object.NewInheritedArr(arrChildProto, elems...)
+	case "str-desc":
+		return object.NewInheritedStr(strChildProto, string(runesOf(c)))
+	}
 	if c.Kind == "arr" {
 		elems := make([]object.PanObject, c.N)
 		for i := range elems {
@@ -75,6 +90,14 @@ func opt(p *int64) string {
 }
 
 func recvSrc(c Case) string {
+	if c.Kind == "arr-desc" {
+		c2 := c
+		c2.Kind = "arr"
+		return "Arr.bear.new(" + recvSrc(c2) + ")"
+	}
+	if c.Kind == "str-desc" {
+		return "Str.bear.new(\"" + string(runesOf(c)) + "\")"
+	}
 	if c.Kind == "arr" {
 		parts := make([]string, c.N)
 		for i := range parts {
@@ -185,7 +208,7 @@ func refSlice(n int64, start, stop, step *int64) ([]int64, bool) {
 }
 
 func render(c Case, idx []int64) string {
-	if c.Kind == "arr" {
+	if c.Kind == "arr" || c.Kind == "arr-desc" {
 		parts := make([]string, len(idx))
 		for k, i := range idx {
 			parts[k] = strconv.FormatInt(100+i, 10)
@@ -207,7 +230,7 @@ func observed(c Case, o interp.Outcome) (string, bool) {
 	}
 	switch v := o.Obj.(type) {
 	case *object.PanArr:
-		if c.Kind != "arr" {
+		if c.Kind != "arr" && c.Kind != "arr-desc" {
 			return "", false
 		}
 		parts := make([]string, len(v.Elems))
@@ -221,7 +244,7 @@ func observed(c Case, o interp.Outcome) (string, bool) {
 		}
 		return "[" + strings.Join(parts, ", ") + "]", true
 	case *object.PanStr:
-		if c.Kind == "arr" {
+		if c.Kind == "arr" || c.Kind == "arr-desc" {
 			return "", false
 		}
 		return strconv.Quote(v.Value), true
@@ -263,7 +286,7 @@ func judge(c *Case, o interp.Outcome) (sig, detail string) {
 			i += n
 		}
 		var want object.PanObject
-		if c.Kind == "arr" {
+		if c.Kind == "arr" || c.Kind == "arr-desc" {
 			want = object.NewPanInt(100 + i)
 		} else {
 			want = object.NewPanStr(string(runesOf(*c)[i]))
@@ -295,7 +318,7 @@ func judge(c *Case, o interp.Outcome) (sig, detail string) {
 
 func nontrivial(c Case) bool {
 	n := int64(c.N)
-	if c.Kind == "utf8" && c.N > 0 {
+	if (c.Kind == "utf8" || c.Kind == "str-desc" || c.Kind == "arr-desc") && c.N > 0 {
 		return true
 	}
 	if c.Form == "index" {
@@ -354,7 +377,7 @@ func TestExhaustiveWindow(t *testing.T) {
 	}
 	bs := bounds(N)
 	k := 0
-	for _, kind := range []string{"arr", "ascii", "utf8"} {
+	for _, kind := range []string{"arr", "ascii", "utf8", "arr-desc", "str-desc"} {
 		for n := 0; n <= N; n++ {
 			for _, b := range bs {
 				if b == nil {
@@ -379,7 +402,7 @@ func TestExhaustiveWindow(t *testing.T) {
 		}
 	}
 	vt.Class("exhaustive window")
-	vt.Exhaustive(fmt.Sprintf("3 sequence kinds x lengths 0..%d x (index, start, stop, step) over [-%d,%d] + nil + 6 extreme values (ast route)", N, N+2, N+2))
+	vt.Exhaustive(fmt.Sprintf("5 sequence kinds (array, ASCII string, multi-byte string, typed Arr descendant, typed Str descendant) x lengths 0..%d x (index, start, stop, step) over [-%d,%d] + nil + 6 extreme values (ast route)", N, N+2, N+2))
 }
 
 func genBound(n int) *rapid.Generator[*int64] {
@@ -404,7 +427,7 @@ func genBound(n int) *rapid.Generator[*int64] {
 func genCase(route string, maxN int) *rapid.Generator[Case] {
 	return rapid.Custom(func(t *rapid.T) Case {
 		c := Case{Route: route}
-		c.Kind = rapid.SampledFrom([]string{"arr", "ascii", "utf8"}).Draw(t, "kind")
+		c.Kind = rapid.SampledFrom([]string{"arr", "ascii", "utf8", "arr", "utf8", "arr-desc", "str-desc"}).Draw(t, "kind")
 		c.N = rapid.IntRange(0, maxN).Draw(t, "n")
 		if rapid.IntRange(0, 4).Draw(t, "form") == 0 {
 			c.Form = "index"
